@@ -28,6 +28,8 @@ type ReplayInfo struct {
 	// Scribble (sharing findings): after the call every piece of mutable memory reachable from the result is
 	// overwritten natively; the finding reproduces iff the arguments change
 	Scribble bool `json:"scribble,omitempty"`
+	// ScribbleArg: for update methods the "result" is what the target argument (index+1; 0 = none) points to
+	ScribbleArg int `json:"scribble_arg,omitempty"`
 }
 
 type goBuilder struct {
@@ -358,15 +360,34 @@ func (d *dumper) dump(sb *strings.Builder, v engine.Value, t types.Type) {
 			d.mapID[m.M] = id
 		}
 		fmt.Fprintf(sb, "map#%d{", id)
-		var ents []string
+		// entries in the order of their (scratch-dumped) keys, so that the numbering of the pointers and maps
+		// met in the values does not depend on the iteration order
+		type kent struct {
+			key string
+			e   *engine.MapEntry
+		}
+		var order []kent
 		for _, e := range m.M.Entries {
+			scratch := &dumper{b: d.b, ptrID: map[*engine.Value]int{}, mapID: map[*engine.MapObj]int{}}
+			for k, v := range d.ptrID {
+				scratch.ptrID[k] = v
+			}
+			for k, v := range d.mapID {
+				scratch.mapID[k] = v
+			}
+			var kb strings.Builder
+			scratch.dump(&kb, e.K, u.Key())
+			order = append(order, kent{kb.String(), e})
+		}
+		sort.SliceStable(order, func(i, j int) bool { return order[i].key < order[j].key })
+		var ents []string
+		for _, ke := range order {
 			var eb strings.Builder
-			d.dump(&eb, e.K, u.Key())
+			d.dump(&eb, ke.e.K, u.Key())
 			eb.WriteString(":")
-			d.dump(&eb, e.V, u.Elem())
+			d.dump(&eb, ke.e.V, u.Elem())
 			ents = append(ents, eb.String())
 		}
-		sort.Strings(ents)
 		sb.WriteString(strings.Join(ents, " "))
 		sb.WriteString("}")
 	case *types.Struct:
@@ -601,16 +622,33 @@ func verifDump(ids *verifIDs, sb *strings.Builder, v reflect.Value) {
 			ids.mp[v.Pointer()] = id
 		}
 		fmt.Fprintf(sb, "map#%d{", id)
-		var ents []string
+		type kent struct {
+			key  string
+			k, v reflect.Value
+		}
+		var order []kent
 		it := v.MapRange()
 		for it.Next() {
+			scratch := &verifIDs{ptr: map[uintptr]int{}, mp: map[uintptr]int{}}
+			for k, x := range ids.ptr {
+				scratch.ptr[k] = x
+			}
+			for k, x := range ids.mp {
+				scratch.mp[k] = x
+			}
+			var kb strings.Builder
+			verifDump(scratch, &kb, it.Key())
+			order = append(order, kent{kb.String(), it.Key(), it.Value()})
+		}
+		sort.SliceStable(order, func(i, j int) bool { return order[i].key < order[j].key })
+		var ents []string
+		for _, ke := range order {
 			var eb strings.Builder
-			verifDump(ids, &eb, it.Key())
+			verifDump(ids, &eb, ke.k)
 			eb.WriteString(":")
-			verifDump(ids, &eb, it.Value())
+			verifDump(ids, &eb, ke.v)
 			ents = append(ents, eb.String())
 		}
-		sort.Strings(ents)
 		sb.WriteString(strings.Join(ents, " "))
 		sb.WriteString("}")
 	case reflect.Struct:
@@ -678,6 +716,10 @@ func verifScribble(v reflect.Value, seen map[uintptr]bool, depth int) {
 	case reflect.Slice:
 		for i := 0; i < v.Len(); i++ {
 			verifScribble(v.Index(i), seen, depth+1)
+		}
+		// the slice header itself, where it lives in memory that can be written (behind a pointer, in a struct)
+		if v.CanSet() {
+			v.Set(reflect.MakeSlice(v.Type(), v.Len()+1, v.Len()+1))
 		}
 	case reflect.Array:
 		for i := 0; i < v.Len(); i++ {
@@ -812,7 +854,26 @@ func (ri *ReplayInfo) TestSource(cv *Conv, t *Target) string {
 	}
 	fmt.Fprintf(&sb, "\t_ = verifDumpAll(ids, %s)\n", strings.Join(argPtrs, ", "))
 	sb.WriteString("\tfunc() {\n\t\tdefer func() {\n\t\t\tif r := recover(); r != nil {\n\t\t\t\tfmt.Printf(\"VERIF-PANIC %v\\n\", r)\n\t\t\t}\n\t\t}()\n")
+	if ri.Scribble && ri.ScribbleArg > 0 && ri.ScribbleArg <= len(names) {
+		// update method: overwrite what the target argument points to, the other arguments must not change
+		var others []string
+		for i, n := range names {
+			if i != ri.ScribbleArg-1 {
+				others = append(others, "&"+n)
+			}
+		}
+		lhs := ""
+		switch nres {
+		case 1:
+			lhs = "_ = "
+		case 2:
+			lhs = "_, _ = "
+		}
+		fmt.Fprintf(&sb, "\t\tidsB := &verifIDs{ptr: map[uintptr]int{}, mp: map[uintptr]int{}}\n\t\tbefore := verifDumpAll(idsB, %s)\n\t\t%s%s\n\t\tverifScribble(reflect.ValueOf(&%s).Elem(), map[uintptr]bool{}, 0)\n\t\tidsA := &verifIDs{ptr: map[uintptr]int{}, mp: map[uintptr]int{}}\n\t\tif after := verifDumpAll(idsA, %s); after != before {\n\t\t\tfmt.Println(\"VERIF-SHARED arguments changed when the target was overwritten: \" + before + \" => \" + after)\n\t\t}\n\t\tfmt.Println(\"VERIF-RESULT scribbled\")\n", strings.Join(others, ", "), lhs, call, names[ri.ScribbleArg-1], strings.Join(others, ", "))
+		nres = -1
+	}
 	switch nres {
+	case -1:
 	case 0:
 		fmt.Fprintf(&sb, "\t\t%s\n\t\tfmt.Println(\"VERIF-RESULT\")\n", call)
 	case 1:
@@ -869,6 +930,13 @@ func (d *Driver) Replay(f *Finding, dir string) (string, string) {
 	}
 	if f.Kind == "sharing" && !f.Replay.WantPanic {
 		f.Replay.Scribble = true
+		if t.Sig.Results().Len() == 0 || (t.Sig.Results().Len() == 1 && isErrorType(t.Sig.Results().At(0).Type())) {
+			for i := 0; i < t.Sig.Params().Len(); i++ {
+				if paramRole(t.Sig.Params().At(i).Name()) == "target" {
+					f.Replay.ScribbleArg = i + 1
+				}
+			}
+		}
 	}
 	src := f.Replay.TestSource(cv, t)
 	testFile := filepath.Join(d.C.Dir, cv.Group, "zz_verif_replay_test.go")
